@@ -77,6 +77,11 @@ CHECKS = {
          "DESIGN.md §7 C18, §11",
          "Relies on the Go race detector (reports unsynchronised conflicting accesses that actually happen in the observed execution). A write to a shared singleton that every build performs is observed with near certainty; a race that needs a rare program feature on two goroutines at once may be missed.",
          "concurrent stress testing under the race detector with a sequential-equivalence oracle"),
+ "C15": ("exploration",
+         "Generated multi-file packages that put at least two items into every unordered collection the builder keeps (imports per file, files, overload families and overloaded named types of imported XGo packages, XGo dependency packages of exported signatures, commented statements) are built repeatedly: K times with a fresh importer per build, K times with one importer shared by all builds (K = 8 quick, 24 thorough), and in two child processes for every 8th history; all written files must be byte-identical. Metamorphic repetition, sampling of histories.",
+         "DESIGN.md §7 C15",
+         "Go randomises map iteration per range statement, so K repetitions miss a two-way order dependence with probability 2^-(K-1); dependence on pointer values or time would show as differences between processes.",
+         "property-based metamorphic testing: repeated builds of generated histories, within and across processes"),
  "C19": ("exploration",
          "Model-based state-machine testing (rapid): random Set/Delete/At/Len/Keys/Iterate/String histories over a pool of generated type keys containing structurally identical but pointer-distinct rebuilds, aliases, permuted/flattened interfaces, permuted unions, renamed type parameters, separately created instantiations, deliberate hash-collision twins and same-named foreign types; after every step every observable is compared with an association list over types.Identical, and Identical=>equal-hash is checked on all pool pairs. Sampling, not proof: right level because the property quantifies over unbounded histories and type shapes.",
          "DESIGN.md §7 C19",
